@@ -174,7 +174,8 @@ def sym_db(ex, prog, sizes, exists=None, fk=True, prefix=''):
     db = DB(schema)
     for e in ENTITIES:
         for i in range(sizes.get(e, 0)):
-            sym_row(ex, db, e, i, exists=exists, prefix=prefix)
+            ee = exists.get(e) if isinstance(exists, dict) else exists
+            sym_row(ex, db, e, i, exists=ee, prefix=prefix)
     assume_inv(ex, db)
     return db
 
@@ -748,7 +749,8 @@ class SQLTx(Opaque):
             err = statement(ex, self.db, 'COMMIT', None, self)
             if err is not None:
                 self.db.restore(self.snap)
-                self.state = 'failed-commit'
+                if self.state == 'open':
+                    self.state = 'failed-commit'
                 ex.events.append(('commit-failed', self))
                 return err
             if self.state != 'open':
